@@ -68,4 +68,5 @@ def main(tier, replay=None):
                         "positional get is not checked for views over Table / Tree (their get takes keys)",
                         "heap constructors (new(Range/Slice/Zip/Filter/Map)) share the *_stack code paths of the macros"]
     camp.report()
+    runner.run_pinned(chk, {"h_view": harness})
     return chk.finish()
